@@ -1074,7 +1074,7 @@ def compile_comprehension(compiler, expr, root, parts, final):
                 generators.append(
                     ast.comprehension(
                         target=v[0],
-                        iter=v[1].expr,
+                        iter=v[1].force_expr,
                         ifs=[],
                         is_async=int(tagname == "afor"),
                     )
@@ -1083,20 +1083,20 @@ def compile_comprehension(compiler, expr, root, parts, final):
                 generators.append(
                     ast.comprehension(
                         target=v[0],
-                        iter=asty.Tuple(v[1], elts=[v[1].expr], ctx=ast.Load()),
+                        iter=asty.Tuple(v[0], elts=[v[1].force_expr], ctx=ast.Load()),
                         ifs=[],
                         is_async=0,
                     )
                 )
             elif tagname == "if":
-                generators[-1].ifs.append(v.expr)
+                generators[-1].ifs.append(v.force_expr)
             else:
                 raise ValueError("can't happen")
         if node_class is asty.DictComp:
             return asty.DictComp(
-                expr, key=key.expr, value=(elt and elt.expr), generators=generators
+                expr, key=key.force_expr, value=(elt and elt.force_expr), generators=generators
             )
-        return node_class(expr, elt=elt.expr, generators=generators)
+        return node_class(expr, elt=elt.force_expr, generators=generators)
 
 
 # ------------------------------------------------
